@@ -4,7 +4,7 @@ from .. import gen, oracles, solved, sysdesc, wire
 
 CLAIM = True
 MODULE = "SysLoss.Props.C03"
-MODULES = ["SysLoss.Props.C03", "SysLoss.Props.C03Live", "SysLoss.Props.C03Contract"]
+MODULES = ["SysLoss.Props.C03", "SysLoss.Props.C03Live", "SysLoss.Props.C03Contract", "SysLoss.Props.C03Const"]
 THEOREMS = ["SysLoss.C03." + t for t in (
     "loop_spec", "solve_terminates", "solvePhase_sound", "solvePhase_error", "passive_ok_physical",
     "source_ok_physical_partial", "source_ok_physical_full_fails", "exact_fixed_point_returns",
@@ -15,14 +15,18 @@ THEOREMS = ["SysLoss.C03." + t for t in (
     # Props/C03Contract: second liveness class - a Source with series resistance feeding loads directly (contraction)
     "loop_returns_if_eventually_converged", "star_step", "star_recurrence_general", "star_recurrence", "linear_cert",
     "linear_factor_lt_one", "star_converges_explicit_partial", "star_converges_partial", "star_converges_cert_partial",
-    "star_converges_cert_arch_partial")]
+    "star_converges_cert_arch_partial",
+    # Props/C03Const: third liveness class - current laws that do not read the voltage (ILoads, constant ground currents), arbitrary series resistances
+    "constant_current_settling_partial", "constant_current_settling_height_partial", "const_eventually_fixed_partial",
+    "const_eventually_fixed_height_partial", "inv_all", "inv_of_iterate", "const_noraise", "all_live", "curr_settle", "volt_settle",
+    "constKind_of_cert", "constant_current_settling_full_fails")]
 LEVEL_TEXT = ("Theorems (Lean 4) about the model of the sweep loop: it performs at most maxiter+1 sweeps (structural recursion); "
               "whatever it returns is a triple on which the exit test fired (never an intermediate iterate); the only other outcomes are "
               "RuntimeError and an exception raised by a voltage law; and a voltage law that returns for a passive series element "
               "(RLoss, VLoss, PSwitch, Rectifier, Source with vo >= 0) neither inverts nor amplifies its input, over any ordered field. "
               "Tied to the code on every run by replaying the loop in IEEE doubles (outcome class and sweep count must agree with "
               "solve(quiet=False)) and by one more exact model sweep on every returned table; the oracle checks finiteness, polarity, "
-              "exception class and default-settings convergence on modest-drop trees. Liveness, first class proved (Props/C03Live): on single-supply trees whose voltage laws do not read the load current (rs = 0, constant drops; converters and regulators arbitrary) the sweep map reaches an EXACT fixed point after at most 2*depth+2 sweeps, so solve() returns (never RuntimeError) whenever maxiter >= 2*depth+3 (`finite_settling_partial`, with the no-raise premise derived from a checkable margin certificate in `finite_settling_margin_partial`); generic lemma `loop_returns_if_eventually_fixed` for any system. Second class (Props/C03Contract), current-dependent drops: a positive Source with series resistance feeding ILoads / RLoads (and PLoads under a stated certificate) directly, with rs*(J + G*vo) < vo (modest drop): the sweep is an affine contraction with factor rs*G < 1, every iterate stays in [vo - rs*(J+G*vo), vo] (so the polarity guard never fires) and solve() returns within K+3 sweeps for any K with (rs*G)^K*vo <= min(vtol,itol)*(vo - rs*(J+G*vo)) (`star_converges_explicit_partial`); over an Archimedean field such a K exists for every vtol, itol > 0 (`star_converges_partial`). Not proved: the general liveness clause "
+              "exception class and default-settings convergence on modest-drop trees. Liveness, first class proved (Props/C03Live): on single-supply trees whose voltage laws do not read the load current (rs = 0, constant drops; converters and regulators arbitrary) the sweep map reaches an EXACT fixed point after at most 2*depth+2 sweeps, so solve() returns (never RuntimeError) whenever maxiter >= 2*depth+3 (`finite_settling_partial`, with the no-raise premise derived from a checkable margin certificate in `finite_settling_margin_partial`); generic lemma `loop_returns_if_eventually_fixed` for any system. Second class (Props/C03Contract), current-dependent drops: a positive Source with series resistance feeding ILoads / RLoads (and PLoads under a stated certificate) directly, with rs*(J + G*vo) < vo (modest drop): the sweep is an affine contraction with factor rs*G < 1, every iterate stays in [vo - rs*(J+G*vo), vo] (so the polarity guard never fires) and solve() returns within K+3 sweeps for any K with (rs*G)^K*vo <= min(vtol,itol)*(vo - rs*(J+G*vo)) (`star_converges_explicit_partial`); over an Archimedean field such a K exists for every vtol, itol > 0 (`star_converges_partial`). Third class (Props/C03Const), series resistances arbitrary but currents independent of the voltages (ILoads, LinReg / PSwitch / Rectifier with constant ground current, series losses; no Converter, PLoad, RLoad, PMux): under a checkable certificate (lower voltage bounds lo, upper current bounds im per node) no guard ever fires, liveness spreads one level per sweep, then the currents settle from the leaves up and the voltages from the roots down, iterate 2*depth+height+2 is an exact fixed point and solve() returns for maxiter >= 3*depth+3 (`constant_current_settling_partial`; without the certificate the class statement is refuted: `constant_current_settling_full_fails`). Not proved: the general liveness clause "
               "(existence of a modest-drop steady state implies convergence) - tested on every generated modest-drop system only; "
               "finiteness (IEEE overflow) is outside an ordered-field theorem. Partial: negative Source with resistance amplifies (F01).")
 LEVEL_NOTE = "The PMux instance of the polarity theorem is in Props/C05; liveness for current-dependent drops (the statement C03_liveness_full in Props/C03Live.lean, a def, not asserted) is evidence by test only, labelled as such."
@@ -49,7 +53,7 @@ def overloaded(rng):
     v = gen.sd(rng, 1.0, 24)
     if rng.random() < 0.25:
         v = -v
-    place = rng.choice(["source", "pswitch", "pmux", "mosfet", "rloss", "vloss", "diode"])
+    place = rng.choice(["source", "pswitch", "pmux", "mosfet", "rloss", "vloss", "diode", "vloss_tab", "diode_tab"])
     k = rng.choice([0.3, 0.6, 0.9, 1.1, 2.0, 5.0, 20.0])
     ld = rng.choice(["pload", "iload"])
     comps = [{"name": "S", "kind": "source", "args": {"vo": v}, "parents": []}]
@@ -78,6 +82,16 @@ def overloaded(rng):
         comps.append({"name": "E", "kind": "rloss", "args": {"rs": r}, "parents": ["S"]}); par = "E"
     elif place == "vloss":
         comps.append({"name": "E", "kind": "vloss", "args": {"vdrop": float("%.4g" % (k * abs(v) * 0.5))}, "parents": ["S"]}); par = "E"
+    elif place in ("vloss_tab", "diode_tab"):
+        # a tabulated drop written with the RAIL'S SIGN (tables are looked up by magnitude: a passive element never amplifies)
+        d0 = k * abs(v) * (0.5 if place == "vloss_tab" else 0.25)
+        sg = -1.0 if rng.random() < 0.7 else 1.0
+        io_ax = [0.0, float("%.3g" % (0.5 * max(abs(load["args"].get("ii", 0.1)), 1e-3))), float("%.3g" % (4 * max(abs(load["args"].get("ii", 0.1)), 1e-3)))]
+        vi_ax = [float("%.3g" % (0.4 * abs(v))), float("%.3g" % (0.9 * abs(v))), float("%.3g" % (1.5 * abs(v)))]
+        if rng.random() < 0.5:
+            vi_ax = [-x for x in vi_ax]
+        tab = {"vi": vi_ax, "io": io_ax, "vdrop": [[float("%.4g" % (sg * d0 * f * g)) for g in (0.8, 1.0, 1.3)] for f in (0.9, 1.0, 1.1)]}
+        comps.append({"name": "E", "kind": "vloss" if place == "vloss_tab" else "rectifier", "args": {"vdrop": tab}, "parents": ["S"]}); par = "E"
     else:
         comps.append({"name": "E", "kind": "rectifier", "args": {"vdrop": float("%.4g" % (k * abs(v) * 0.25))}, "parents": ["S"]}); par = "E"
     load["parents"] = [par]
@@ -119,6 +133,36 @@ def stepdown(rng):
     return {"name": "stepdown", "comps": comps, "phases": {}, "_place": place}
 
 
+SERIES = ("rloss", "vloss", "pswitch", "pmux", "rectifier")
+
+
+def modest_state(ctx, desc, lam=0.3, steps=600):
+    """a steady state of the system in which every series element (and every source resistance) drops at most 25 % of its
+    input, found by damped iteration; None if the iteration raises, does not settle, or settles on larger drops"""
+    req = {"cmd": "relax", "carrier": "float", "sys": sysdesc.to_wire(desc, None), "ta": wire.num(25.0), "phase": "",
+           "lambda": wire.num(lam), "steps": steps}
+    m = ctx.drv.ask(req)
+    if not m.get("ok"):
+        return None
+    v, F = [float(wire.unnum(x)) for x in m["v"]], [float(wire.unnum(x)) for x in m["F"]]
+    i, G = [float(wire.unnum(x)) for x in m["i"]], [float(wire.unnum(x)) for x in m["G"]]
+    if any(abs(a - b) > 1e-9 + 1e-7 * abs(b) for a, b in zip(v, F)) or any(abs(a - b) > 1e-9 + 1e-7 * abs(b) for a, b in zip(i, G)):
+        return None
+    kinds = {c["name"]: c for c in desc["comps"]}
+    rows = m["phases"][0]["rows"]
+    out = []
+    for r in rows:
+        c = kinds.get(r["name"])
+        if c is None:
+            continue
+        vin, vout = float(wire.unnum(r["vin"])), float(wire.unnum(r["vout"]))
+        if c["kind"] in SERIES or (c["kind"] == "source" and abs(c["args"].get("rs", 0.0)) > 0):
+            if vin != 0.0 and abs(vout) < 0.75 * abs(vin):
+                return None
+            out.append([r["name"], round(vin, 6), round(vout, 6)])
+    return {"series_rows_vin_vout": out[:8]}
+
+
 def solve_observed(desc, kw):
     """solve(quiet=False): returns (df, exc, sweeps per phase from the printed messages)"""
     sys_, e = sysdesc.quiet_call(sysdesc.build, desc)
@@ -153,7 +197,14 @@ def one(ctx, desc, kw, stream):
     if cls not in ("ok", "RuntimeError", "ValueError(unstable)"):
         ctx.oracle(desc, "exception_class", "solve", {"cls": cls}, {"exception": repr(err[1]), "solve_kw": kw})
     if stream in ("modest", "stepdown") and cls != "ok" and not kw:
-        ctx.oracle(desc, "liveness_default_settings", "solve", {}, {"exception": repr(err[1]), "solve_kw": kw})
+        # the clause is conditional: "whenever a steady state with modest drops EXISTS".  Existence is decided by an independent
+        # route - damped iteration of the model's sweep map (driver `relax`) - and by looking at the drops of what it finds.
+        found = modest_state(ctx, desc)
+        if found is None:
+            ctx.stats["%s:raised_and_no_modest_steady_state_found" % stream] += 1
+        else:
+            ctx.oracle(desc, "liveness_default_settings", "solve", {},
+                       {"exception": repr(err[1]), "solve_kw": kw, "a_modest_steady_state_exists": found})
     # ---- replay of the sweep loop in IEEE doubles by the model
     vt, it, mi = kw.get("vtol", 1e-6), kw.get("itol", 1e-6), kw.get("maxiter", 10000)
     topo = None
